@@ -3855,14 +3855,22 @@ static gboolean priv_map_reply_to_discovery_request (NiceAgent *agent, StunMessa
         nice_debug ("Agent %p : stun_bind_process/disc for %p res %d.",
             agent, d, (int)res);
 
-        if (res == STUN_USAGE_BIND_RETURN_ALTERNATE_SERVER) {
+        if (res == STUN_USAGE_BIND_RETURN_ALTERNATE_SERVER &&
+            d->redirects < NICE_DISCOVERY_MAX_REDIRECTS) {
           /* handle alternate server */
           NiceAddress niceaddr;
           nice_address_set_from_sockaddr (&niceaddr, &alternate.addr);
           d->server = niceaddr;
 
+          d->redirects++;
           d->pending = FALSE;
           agent->discovery_unsched_items++;
+        } else if (res == STUN_USAGE_BIND_RETURN_ALTERNATE_SERVER) {
+          /* case: a chain of redirections that does not end, give up */
+          d->stun_message.buffer = NULL;
+          d->stun_message.buffer_len = 0;
+          d->done = TRUE;
+          trans_found = TRUE;
         } else if (res == STUN_USAGE_BIND_RETURN_SUCCESS) {
           /* case: successful binding discovery, create a new local candidate */
 
@@ -3981,6 +3989,16 @@ static void priv_handle_turn_alternate_server (NiceAgent *agent,
      unique foundations that only contain one component.
   */
   GSList *i;
+
+  if (disco->redirects >= NICE_DISCOVERY_MAX_REDIRECTS) {
+    /* A chain of redirections that does not end must not keep gathering
+     * alive for ever: give up on this discovery. */
+    disco->stun_message.buffer = NULL;
+    disco->stun_message.buffer_len = 0;
+    disco->done = TRUE;
+    return;
+  }
+  disco->redirects++;
 
   for (i = agent->discovery_list; i; i = i->next) {
     CandidateDiscovery *d = i->data;
